@@ -368,6 +368,40 @@ def run(ctx):
                 nonstd = [b for b in range(256) if (emitted_for(b, mval)[0] or b'')[:2] == b'\\x']
                 ctx.check(not nonstd, 'C04-R3', 'STANDARD|no-hex-escapes', esc, 'standard mode never emits \\x', 'standard mode emits the non-standard \\x escape for bytes %s' % [hex(b) for b in nonstd[:4]])
 
+    # ---- R2 (evaluation part): every text form `%g` can produce for a double (plus the ".0" the
+    # serializer appends to integral-looking ones) is read back by JSON::parse as a float of that value
+    with ctx.section('C04-R2', 'C04'):
+        R = 'C04-R2'
+        fl_bad, fl_und, fl_n = None, None, 0
+        for v_ in (0.0, 1.0, -1.0, 1.5, -2.25, 100.0, 123456.0, 1e6, 2e6, 1e20, 2.5e20, 1e-7, 1.5e-7, 1e100, 1e-100, 1.7976931348623157e308, 5e-324, 123456789.0, 0.1, 1e5, 999999.0, 1e15, 1e16, -1e6, -1e-7):
+            txt_ = '%g' % v_
+            if '.' not in txt_ and 'e' not in txt_:
+                txt_ += '.0'
+            for strict_ in (0, 1):
+                if fl_und or fl_bad:
+                    break
+                doc_ = txt_.encode()
+                try:
+                    r_ = PEp.call_with(cptr[0], [_Lit(doc_), len(doc_), strict_])
+                except _Thrown as e_:
+                    fl_bad = 'the float text %s (what the serializer prints for %r) is rejected by JSON::parse in %s mode (%s)' % (txt_, v_, 'strict' if strict_ else 'default', e_.etype)
+                    continue
+                except Fault as e_:
+                    fl_bad = 'JSON::parse(%s) %s' % (txt_, e_)
+                    continue
+                except Undecided as e_:
+                    fl_und = str(e_)
+                    continue
+                fl_n += 1
+                want_ = float(txt_)
+                if not (isinstance(r_, _JV) and r_.kind == 'float' and (r_.val == want_ or abs(r_.val - want_) <= 1e-12 * abs(want_))):
+                    fl_bad = 'the float text %s (what the serializer prints for %r) parses in %s mode to %s %r: a float must come back as a float of the same value' % (txt_, v_, 'strict' if strict_ else 'default', r_.kind if isinstance(r_, _JV) else type(r_).__name__, r_.val if isinstance(r_, _JV) else r_)
+        if fl_und:
+            ctx.undecided(R, 'float-texts|parse-back', P, 'JSON::parse could not be folded on the float texts (%s)' % fl_und)
+        elif fl_bad:
+            ctx.bad(R, 'float-texts|parse-back', P, fl_bad)
+        else:
+            ctx.ok(R, 'float-texts|parse-back', P, 'every %%g form (plain, fraction, e+XX, e-XX, with the appended .0) parses back to a float of the same value in both modes (%d cases)' % fl_n)
     # ---- R2 number syntax
     with ctx.section('C04-R2', 'C04'):
         R = 'C04-R2'
@@ -845,7 +879,9 @@ def check_compare(ctx, u, alts):
         whose = {_whose_value(g) for g in gs}
         if k in (2,) and not gs:
             continue   # `case 2:` falling into `case 3:` shares its body
-        ctx.check(bool(gs) and used <= expect[k] and whose <= {'other.value'}, R, 'operator<=>(JSON)|case-%d-alternative' % k, c,
+        # reading this->value directly is fine when it is read at the case's own index (the switch is on this index)
+        this_ok = all(_variant_index(g) == k for g in gs if _whose_value(g) == 'this.value')
+        ctx.check(bool(gs) and used <= expect[k] and whose <= {'other.value', 'this.value'} and 'other.value' in whose and this_ok, R, 'operator<=>(JSON)|case-%d-alternative' % k, c,
                   'case %d reads alternative(s) %s of other.value' % (k, sorted(used)), 'case %d (%s) reads alternative(s) %s of %s' % (k, ALT_NAMES[k], sorted(used), sorted(whose)))
         # dispatch: this->operator<=>(*p) must resolve to the comparator whose parameter is p's alternative
         for y in walk(c):
@@ -897,6 +933,21 @@ def check_compare(ctx, u, alts):
                     r = relation(cond, True)
                     if r and r[1] == '!=' and all(x.get('kind') == 'CXXMemberCallExpr' and call_name(x) == 'size' for x in (strip(r[0]), strip(r[2]))) and _is_unordered(then) and not falls_through(then):
                         size_guard = True
+                    # one-sided form: only "the side that is looked up in is larger than the side whose keys are
+                    # walked" needs the guard - a smaller one misses a key in the loop
+                    if r and r[1] in ('>', '<') and all(x.get('kind') == 'CXXMemberCallExpr' and call_name(x) == 'size' for x in (strip(r[0]), strip(r[2]))) and _is_unordered(then) and not falls_through(then):
+                        big, small = (r[0], r[2]) if r[1] == '>' else (r[2], r[0])
+                        bigo, smallo = canon(member_call_object(strip(big))), canon(member_call_object(strip(small)))
+                        walked = [canon(kids(x_)[-2] if False else x_) for x_ in []]
+                        rf = [x_ for x_ in walk(b) if x_.get('kind') == 'CXXForRangeStmt']
+                        walked_objs = set()
+                        for x_ in rf:
+                            for y_ in walk(x_):
+                                if y_.get('kind') == 'VarDecl' and (y_.get('name') or '').startswith('__range') and kids(y_):
+                                    walked_objs.add(canon(kids(y_)[-1]))
+                        looked = {canon(member_call_object(c_)) for c_ in walk(b) if c_.get('kind') == 'CXXMemberCallExpr' and call_name(c_) in ('at', 'find', 'count') and any(any(z_ is c_ for z_ in walk(x_)) for x_ in rf)}
+                        if smallo in walked_objs and bigo in looked and s.get('_off', 0) < min(x_.get('_off', 0) for x_ in rf):
+                            size_guard = True
             ctx.check(size_guard, R, lab + '|size-guard', f, 'different sizes compare unordered', 'the dict comparator has no `sizes differ -> unordered` guard: a dict would equal any superset of itself')
             loops = [x for x in walk(b) if x.get('kind') == 'CXXForRangeStmt']
             lookups = [x for x in walk(b) if x.get('kind') == 'CXXMemberCallExpr' and call_name(x) in ('at', 'find') and any(a in loops for a in ancestors(x))]
